@@ -1,7 +1,8 @@
 CONSTANTS
   TLen = 5
   NPrim = 3
-  MaxObj = 9
+  NMat = 1
+  MaxObj = 10
   MaxDepth = 0
 SPECIFICATION Spec
 INVARIANT TypeOK
